@@ -2,6 +2,8 @@ mod density;
 mod fault_sweep;
 mod record;
 mod record_sampler;
+mod replay_kernels;
+mod replay_lattice;
 mod replay_nuts;
 mod replay_storage;
 
@@ -11,6 +13,8 @@ fn main() {
     let rest = &args[2.min(args.len())..];
     let code = match cmd {
         "replay-nuts" => replay_nuts::main(rest),
+        "replay-lattice" => replay_lattice::main(rest),
+        "replay-kernels" => replay_kernels::main(rest),
         "record-chains" => record::main(rest),
         "record-sampler" => record_sampler::main(rest),
         "fault-sweep" => fault_sweep::main(rest),
